@@ -1225,6 +1225,54 @@ for _t in ('HashSet', 'IndexSet', 'BTreeSet'):
     M['%s::is_empty' % _t] = lambda it, c, a: BoolV(len(deref(a[0]).kv) == 0)
 
 
+def _entry(it, c, a):
+    mp = deref(a[0]); key = a[1]
+    j = _map_find(it, mp, key)
+    return Agg('enum', 'Entry', 'Vacant' if j is None else 'Occupied', [tup(RefV([mp], 0), key if j is None else IntV(j, 64, 0))])
+
+
+def _entry_slot(it, e, mk):
+    mp = deref(e.fields[0].fields[0])
+    if e.variant == 'Vacant':
+        mp.kv.append((e.fields[0].fields[1], mk()))
+        j = len(mp.kv) - 1
+    else:
+        j = e.fields[0].fields[1].v
+    return RefV(_KVRef(mp, j), 1)
+
+
+def _entry_default(it, c, a):
+    m = re.search(r'Entry::<[^,]*,\s*[^,]+,\s*(.*)>::or_default', c)
+    vt = m.group(1).strip() if m else ''
+
+    def mk():
+        if re.match(r'^(std::vec::|alloc::vec::)?Vec<', vt):
+            return VecV([])
+        if re.match(r'^[\w:]*(HashMap|IndexMap|BTreeMap|HashSet|IndexSet)<', vt):
+            return MapV()
+        mi = re.match(r'^([ui])(8|16|32|64|size)$', vt)
+        if mi:
+            return IntV(0, 64 if mi.group(2) == 'size' else int(mi.group(2)), 1 if mi.group(1) == 'i' else 0)
+        raise Unsupported('Entry::or_default for the value type %r' % vt)
+    return _entry_slot(it, a[0], mk)
+
+
+def _entry_and_modify(it, c, a):
+    e = a[0]
+    if e.variant == 'Occupied':
+        mp = deref(e.fields[0].fields[0]); j = e.fields[0].fields[1].v
+        it.call_closure(a[1], [RefV(_KVRef(mp, j), 1)])
+    return e
+
+
+for _t in ('HashMap', 'IndexMap', 'BTreeMap'):
+    M['%s::entry' % _t] = _entry
+M['Entry::or_default'] = _entry_default
+M['Entry::or_insert_with'] = lambda it, c, a: _entry_slot(it, a[0], lambda: it.call_closure(a[1], []))
+M['Entry::or_insert'] = lambda it, c, a: _entry_slot(it, a[0], lambda: a[1])
+M['Entry::and_modify'] = _entry_and_modify
+
+
 def _map_index(it, a):
     mp = deref(a[0]); j = _map_find(it, mp, a[1])
     if j is None:
